@@ -151,12 +151,21 @@ def check_frame(case, acc, full=True):
   if not full:
     return
   # add_frames(n) == n single additions (both must land on frame k+n)
-  for n in (1, 2, R, 60 * R):
+  drop = rate.denominator == 1001 and R in (30, 60)
+  hour = 3600 * R - (108 * R // 30 if drop else 0)         # frames in one hour of labels
+  for n, nm in ((1, "1"), (2, "2"), (R, "sec"), (60 * R, "min"), (hour, "hour"), (hour // 6, "10min")):
     t2 = SmpteTimeCode.from_frames(k, rate)
+    _pre2 = (t2.to_frames(), t2.to_temporal_offset())      # the object has answered queries before it is advanced
     t2.add_frames(n)
     if t2.to_frames() != k + n or _label_of(t2) != _label_of(SmpteTimeCode.from_frames(k + n, rate)):
-      _viol(acc, "C12.add", f"rate={rs},n={'1' if n == 1 else '2' if n == 2 else 'sec' if n == R else 'min'}", c,
-            [_label_of(t2), t2.to_frames()], k + n, fam, idx)
+      _viol(acc, "C12.add", f"rate={rs},n={nm}", c, [_label_of(t2), t2.to_frames()], k + n, fam, idx)
+    elif nm in ("hour", "10min", "min"):
+      # ... and is advanced again: n additions followed by one more equal n + 1 single additions
+      t2.add_frames(1)
+      if t2.to_frames() != k + n + 1 or _label_of(t2) != _label_of(SmpteTimeCode.from_frames(k + n + 1, rate)) \
+         or t2.to_temporal_offset() != Fraction(k + n + 1) / rate:
+        _viol(acc, "C12.add.requery", f"rate={rs},n={nm}+1", c, [_label_of(t2), t2.to_frames()], k + n + 1, fam, idx,
+              "state kept from before a large add_frames must not influence later answers")
   t3 = SmpteTimeCode.from_frames(k, rate)
   t3.add_frames()
   t3.add_frames()
